@@ -207,7 +207,10 @@ def pages(thorough):
             out.append((((a, b),), kind, 0))
             out.append((((a,), (b,)), kind, 0))
     # script changes inside one block (the conversion applies to Arabic-script lines only), words with edge delimiters
-    mixed = [('اب', 'ab, cab.'), ('ab, cab.', 'اب'), ('اب ab', 'a: b.'), ('a. b', 'اب', 'c, a'), ('اب', 'ba', 'اب', '.ab')]
+    mixed = [('اب', 'ab, cab.'), ('ab, cab.', 'اب'), ('اب ab', 'a: b.'), ('a. b', 'اب', 'c, a'), ('اب', 'ba', 'اب', '.ab'),
+             # Arabic-script LINES that also hold Latin words / numbers with an edge delimiter and words mixing both scripts: every
+             # word of such a line goes through the order conversion, not only the purely Arabic ones
+             ('اب cab. با',), ('ab: اب 7.5, با',), ('اب (با 7ب ab.',), ('اب cab.', 'a. با b,')]
     for m in mixed:
         for kind in LOGIT_KINDS:
             out.append(((m,), kind, 0))
